@@ -131,7 +131,11 @@ def run(ctx):
                     a = bad_values(rng, f, "key") if role == "key" else good_k
                     b = bad_values(rng, f, "value") if role == "value" else good_v
                     if f.kk == "O" and role == "key" and not isinstance(a, Plain) and a is not None:
-                        a = Plain()           # other python values are legitimate object keys but not comparable with the stored ones
+                        # other python values are legitimate object keys; one that cannot be ordered against the
+                        # stored keys (str vs int) must fail -- or report absence -- the same way in both
+                        a = Plain() if rng.random() < 0.5 else ("x" if mode == "int" else 5)
+                        if not isinstance(a, Plain) and name in ("set", "setdefault", "insert", "update"):
+                            name = rng.choice(["get", "getd", "item", "in", "has_key", "pop", "popd", "del", "keys", "minKey"])  # an empty container would accept the write
                     if f.vk == "O" and role == "value":
                         continue
                     had_bad = True
@@ -145,7 +149,8 @@ def run(ctx):
                         except Exception:  # noqa
                             return repr(x) == repr(y)
                     if r2["C"][0] != r2["Py"][0] or (r2["C"][0] == "ok" and not same_value(r2["C"][1], r2["Py"][1])):
-                        bad = ("out-of-domain-" + role, name + (":empty-container" if not before["C"] else ""), r2["C"], r2["Py"], repr(a)[:40], repr(b)[:40])
+                        unord = f.kk == "O" and role == "key" and not isinstance(a, Plain) and a is not None
+                        bad = ("out-of-domain-" + role, name + (":empty-container" if not before["C"] else "") + (":unorderable-key" if unord else ""), r2["C"], r2["Py"], repr(a)[:40], repr(b)[:40])
                     else:
                         if r2["C"][0] == "TypeError":
                             stats["typeerror_both"] += 1
